@@ -374,7 +374,21 @@ func (g *vfXGen) element(n int, ns string, explicitNS bool) (string, vfExpect) {
 		if g.r.Intn(2) == 0 {
 			ch = append(ch, g.unknown(g.r.Intn(3), ""))
 		}
-		return "<stream:features>" + g.join(ch) + "</stream:features>", vfExpect{Kind: "StreamFeatures", Feature: "features"}
+		ft := "features"
+		if g.r.Intn(3) == 0 {
+			// a feature this library does not know, named like one it knows but in another namespace (XEP-0386's
+			// <bind xmlns='urn:xmpp:bind:0'/>, say): an unknown child like any other
+			nm := []string{"bind", "session", "starttls", "mechanisms", "compression", "sm", "c", "register", "mechanism", "required", "optional"}[g.r.Intn(11)]
+			fns := []string{"urn:xmpp:bind:0", "urn:xmpp:sasl:2", "urn:vf:other-features", "jabber:client"}[g.r.Intn(4)]
+			inner := ""
+			if g.r.Intn(2) == 0 {
+				inner = "<inline><feature var='urn:xmpp:sm:3'/></inline>"
+			}
+			p := g.r.Intn(len(ch) + 1)
+			ch = append(ch[:p], append([]string{"<" + nm + " xmlns='" + fns + "'>" + inner + "</" + nm + ">"}, ch[p:]...)...)
+			ft = "features+foreign-ns-known-name"
+		}
+		return "<stream:features>" + g.join(ch) + "</stream:features>", vfExpect{Kind: "StreamFeatures", Feature: ft}
 	case k < 14:
 		cond := []string{"conflict", "host-unknown", "not-well-formed", "system-shutdown", "vf-unknown-condition"}[g.r.Intn(5)]
 		s := `<stream:error><` + cond + ` xmlns="urn:ietf:params:xml:ns:xmpp-streams"/>`
